@@ -151,15 +151,23 @@ def generate():
                 raise Unsupported('padding depends on the byte order')
             # classify_pr_data probed on every name of the Enum, three sizes
             km = []
+            probes = (0, 4, 8, 12345)
             for name in decoding.values():
-                res = [sw.keyfunc(_PropCtx(name, D)) for D in (4, 8, 12345)]
-                if all(isinstance(x, tuple) and len(x) == 3 for x in res) and len(set(res)) == 1:
-                    lab, a, b = res[0]
-                    km.append((name, lab, True, _int(a), _int(b)))
-                elif res == [(name, D, cls) for D in (4, 8, 12345)]:
-                    km.append((name, name, False, 0, 0))
-                else:
+                res = [sw.keyfunc(_PropCtx(name, D)) for D in probes]
+                if not all(isinstance(x, tuple) and len(x) == 3 and isinstance(x[0], str) for x in res) or len(set(x[0] for x in res)) != 1:
                     raise Unsupported('classify_pr_data(%s) = %r' % (name, res))
+                lab = res[0][0]
+                # second component: pr_datasz itself, or a constant; third: elfclass, or a constant
+                if [x[1] for x in res] == list(probes):
+                    a = None
+                elif len(set(x[1] for x in res)) == 1:
+                    a = _int(res[0][1])
+                else:
+                    raise Unsupported('classify_pr_data(%s) size component %r' % (name, res))
+                if len(set(x[2] for x in res)) != 1:
+                    raise Unsupported('classify_pr_data(%s) class component %r' % (name, res))
+                b = None if res[0][2] == cls else _int(res[0][2])
+                km.append((name, lab, a, b))
             for raw in (0, 1, 0xc0000002, 0x12345678):
                 if sw.keyfunc(_PropCtx(raw, 4)) is not None:
                     raise Unsupported('classify_pr_data on an unnamed type')
@@ -171,11 +179,13 @@ def generate():
     out.append('Definition gen_prop_type_table : list (Z * string) := %s.\n'
                % lst(('(%s, %s)' % (z(k), string(v)) for k, v in decoding.items()), 2))
     out.append('Definition gen_prop_type_strict : bool := %s.\n' % boolean(strict))
-    out.append('(* classify_pr_data probed on every name of the Enum: name -> (label, fixed?, size, class);\n'
-               '   fixed = the key is (label, size, class) whatever pr_datasz is, else (label, pr_datasz, elfclass);\n'
-               '   a pr_type that is not a name gives no key (the Switch default) *)')
-    out.append('Definition gen_prop_key_of_type : list (string * (string * bool * Z * Z)) := %s.\n'
-               % lst(('(%s, (%s, %s, %s, %s))' % (string(n), string(l), boolean(f), z(a), z(b)) for n, l, f, a, b in keymap), 1))
+    out.append('(* classify_pr_data probed on every name of the Enum (pr_datasz 0, 4, 8, 12345; both classes):\n'
+               '   name -> (label, size, class); the Switch key is (label, size or pr_datasz if None, class or\n'
+               '   elfclass if None); a pr_type that is not a name gives no key (the Switch default) *)')
+    def opt(v):
+        return 'None' if v is None else '(Some %s)' % z(v)
+    out.append('Definition gen_prop_key_of_type : list (string * (string * option Z * option Z)) := %s.\n'
+               % lst(('(%s, (%s, %s, %s))' % (string(n), string(l), opt(a), opt(b)) for n, l, a, b in keymap), 1))
     if dict(sw_cases)[32] != dict(sw_cases)[64]:
         raise Unsupported('Switch table depends on the class')
     out.append('(* Switch cases: (label, pr_datasz, class) -> unsigned integer of n bytes in file byte order *)')
